@@ -595,6 +595,17 @@ func WithAfterPublish(hook PublishHook) Option {
 // WithBeforePublishContext sets a context-aware hook that's called before publishing events
 func WithBeforePublishContext(hook PublishHookContext) Option {
 	return func(bus *EventBus) {
+		if bus.store != nil {
+			// WithStore was applied earlier and keeps its persistence step in this
+			// slot: replace the user's hook but keep persisting
+			bus.beforePublishCtx = func(ctx context.Context, eventType reflect.Type, event any) {
+				if hook != nil {
+					hook(ctx, eventType, event)
+				}
+				bus.persistEvent(ctx, eventType, event)
+			}
+			return
+		}
 		bus.beforePublishCtx = hook
 	}
 }
